@@ -490,8 +490,9 @@ def _m_f29(case, f, p):
 
 
 def _m_f02(case, f, p):
-    """F02: the result is exactly what the spec gives when the link of the LAST key-table entry is removed (entry never read)"""
-    if f.got == '"error"' or case["spec"].get("mode") != "stub":
+    """F02: the result is exactly what the spec gives when the link of the LAST key-table entry is removed (entry never read);
+    when the dropped link is a palette (CLUT) that a bitmap refers to, the spec without it has no palette to hand over and the call raises"""
+    if case["spec"].get("mode") != "stub":
         return False
     m = _spec_movie(case)
     info = {}
@@ -503,6 +504,8 @@ def _m_f02(case, f, p):
     m["members"][i]["links"] = [l for k, l in enumerate(m["members"][i]["links"]) if k != j]
     try:
         return canon(to_jsonable(assemble_spec(m, STUBS))) == f.got
+    except KeyError:
+        return f.got == '"error"'
     except Exception:
         return False
 
